@@ -15,6 +15,26 @@ static void on_record(void *, const std::vector<lit> &lits)
   learnt += "]";
 }
 
+// a theory with no constraints of its own: lets a history report a conflict found outside propagation
+// (what the executor does through theory::backtrack_analyze_and_backjump)
+struct bj_theory : public theory
+{
+  bj_theory(sat_core &s) : theory(s) {}
+  bool go(const std::vector<lit> &c)
+  {
+    cnfl = c;
+    const bool r = backtrack_analyze_and_backjump();
+    cnfl.clear();
+    return r;
+  }
+
+private:
+  bool propagate(const lit &) noexcept override { return true; }
+  bool check() noexcept override { return true; }
+  void push() noexcept override {}
+  void pop() noexcept override {}
+};
+
 struct world
 {
   sat_core sat;
@@ -22,8 +42,9 @@ struct world
   ov_theory ov;
   idl_theory idl;
   rdl_theory rdl;
+  bj_theory bj;
   std::vector<lit> rets; // the literals returned by the lra.<relation> requests: `$k` / `!$k` in later operations
-  world() : lra(sat), ov(sat), idl(sat), rdl(sat) { sat.verif_record = on_record; }
+  world() : lra(sat), ov(sat), idl(sat), rdl(sat), bj(sat) { sat.verif_record = on_record; }
 };
 
 static bool is_rel_op(const std::string &op) { return op == "lra.lt" || op == "lra.leq" || op == "lra.eq" || op == "lra.geq" || op == "lra.gt"; }
@@ -335,6 +356,20 @@ int main()
           res = "queue";
         else
           res = hv::show(sat.next());
+      }
+      else if (op == "bj")
+      {
+        const long k = t.integer();
+        const auto &tr = access::trail(sat);
+        if (access::queue_size(sat) != 0 || k < 1 || static_cast<size_t>(k) > tr.size())
+          res = "pre";
+        else
+        {
+          std::vector<lit> c;
+          for (long j = 0; j < k; ++j)
+            c.push_back(!tr[tr.size() - 1 - j]);
+          res = hv::show(w->bj.go(c));
+        }
       }
       else if (op == "check")
       {
